@@ -131,6 +131,22 @@ def directed_registry_cases(rng, n):
                 if ASTNode.get_any(x.id) is x:
                     fail = (f"a {type(x).__name__} of a detach()ed tree is still returned by lookup (an inner node had left the "
                             f"registry before by {how})")
+        # (f) "a node created while no registered node has the same class, origin and comparable content gets the same id
+        #     every time": content that is an init=False comparable property (computed before the base initialiser runs)
+        if fail is None:
+            from props.c01 import Derived
+            gc.collect()
+            NODE_REGISTRY.clear()
+            alone = Derived(text="bb")
+            id0 = alone.id
+            del alone
+            gc.collect()
+            other = Derived(text="a")          # other comparable content (value = 1), alive
+            again = Derived(text="bb")
+            if again.id != id0:
+                fail = (f"Derived(text='bb') (comparable value=2) gets id {again.id} next to a live Derived(text='a') (value=1) "
+                        f"but {id0} when created alone: no registered node has the same comparable content")
+            del other, again
         # (d) a live child in a field typed as a union of unrelated classes (non-first member) below an unregistered
         #     parent: deserializing the parent's payload re-uses the child and never evicts it
         if fail is None:
